@@ -23,7 +23,7 @@ Definition sproj := list (str * sjob).
    job generations: an object older than the current incarnation of the job holds that earlier incarnation's data),
    [d_id] its identity (shallow copies taken after the first document access share the object, deep copies / pickles get
    a copy), [d_clean] its in-memory data was emptied by remove() through one of the handles that share it *)
-Record sdoc := mkSD { d_t : nat; d_id : nat; d_clean : bool }.
+Record sdoc := mkSD { d_t : nat; d_id : N; d_clean : bool }.   (* d_id in binary: copies multiply it *)
 Record shandle := mkSH { sh_root : path; sh_cell : nat; sh_dk : bool; sh_doc : option sdoc; sh_byid : bool }.
 
 Record sstate := mkSS {
@@ -109,10 +109,10 @@ Section Spec.
   Definition mark_dk (s : sstate) (h : nat) : sstate :=
     let x := hS s h in set_hS s h (mkSH (sh_root x) (sh_cell x) true (sh_doc x) (sh_byid x)).
   (* every handle that shares the document object [i] *)
-  Definition map_doc (s : sstate) (i : nat) (f : sdoc -> option sdoc) : sstate :=
+  Definition map_doc (s : sstate) (i : N) (f : sdoc -> option sdoc) : sstate :=
     mkSS (ss_projs s) (ss_sess s)
          (map (fun y => match sh_doc y with
-                        | Some d => if Nat.eqb (d_id d) i then mkSH (sh_root y) (sh_cell y) (sh_dk y) (f d) (sh_byid y) else y
+                        | Some d => if N.eqb (d_id d) i then mkSH (sh_root y) (sh_cell y) (sh_dk y) (f d) (sh_byid y) else y
                         | None => y end) (ss_hs s))
          (ss_cells s) (ss_gen s) (ss_planted s) (ss_orph s).
   (* the handle creates its document object now (if it has none); an emptied object that is used again while the job
@@ -124,7 +124,7 @@ Section Spec.
         if d_clean d && match job_of s h with Some _ => true | None => false end
         then bump (map_doc s (d_id d) (fun d' => Some (mkSD (ss_gen s) (d_id d') false)))
         else s
-    | None => bump (set_hS s h (mkSH (sh_root x) (sh_cell x) true (Some (mkSD (ss_gen s) (ss_gen s) false)) (sh_byid x)))
+    | None => bump (set_hS s h (mkSH (sh_root x) (sh_cell x) true (Some (mkSD (ss_gen s) (N.of_nat (ss_gen s)) false)) (sh_byid x)))
     end.
   (* clear() / reset() through the handle: its document object is loaded, emptied and saved - current again *)
   Definition fresh_doc (s : sstate) (h : nat) : sstate :=
@@ -133,7 +133,7 @@ Section Spec.
     | None => s
     end.
   Definition copy_doc (n : nat) (o : option sdoc) : option sdoc :=
-    match o with Some d => Some (mkSD (d_t d) (d_id d * 1000 + S n) (d_clean d)) | None => None end.
+    match o with Some d => Some (mkSD (d_t d) (d_id d * 1000 + N.of_nat (S n))%N (d_clean d)) | None => None end.
 
   (* the state point of the job changes to [new] through handle h (sp[k]=v, del, assignment, update_statepoint) *)
   Definition rekey_spec (s : sstate) (h : nat) (new : json) : sstate * sres :=
